@@ -395,7 +395,7 @@ func GenTraffic(rng *rand.Rand, t *Node, i int) *Msg {
 				if v == "" {
 					v = "v0"
 				}
-				w.Query += "&" + f.Attr("name") + "=" + v
+				w.Query += "&" + EncQ(rng, f.Attr("name")) + "=" + EncQ(rng, v)
 			}
 			*m = *w
 		}
